@@ -202,4 +202,20 @@ PROPS = {
         ],
         "assumptions": ["a single failure per operation; the compensation itself does not fail"],
     },
+    "C12": {
+        "propfile": "PropC12.v",
+        "n": {"quick": 400, "thorough": 8000},
+        "corr": "policy.State.Commit (staging) / policy.Apply / policy.Discard / direct ref tampering vs astep (ApplyModel.v)",
+        "rule": "sequences of 2-10 operations on an in-memory Storer: stage a policy state (valid successor, or one of the forbidden "
+                "ones: self-signed replacement root, unsigned/wrongly signed root, forged or rolled-back rule file, dropped/dangling "
+                "delegated file), Apply, Discard, set refs/gittuf/policy or policy-staging directly to an earlier staged commit. After "
+                "every operation: error, both refs, the policy/staging entries of the log (independent walker) and whether "
+                "LoadCurrentState(policy) succeeds. non-trivial = >=4 operations",
+        "theorems": ["C12_apply", "C12_refused", "C12_discard"],
+        "trusted": [
+            "sequences in which staging diverges from policy (ReconcileStaging rewrites history) are skipped and counted",
+            "the experimental/gittuf API guard (non-root signers refused) is not exercised",
+        ],
+        "assumptions": [],
+    },
 }
